@@ -166,9 +166,15 @@ static void run_products() {
 
 // ---------------------------------------------------------------------------------------------
 template <class V, class ValFn>
-static void transpose_case(const char *tag, int m, int n, uint64_t mask, ValFn vfn) {
+static void transpose_case(const char *tag, int m, int n, uint64_t mask, ValFn vfn, bool reversed_rows = false) {
     auto D = mk::from_mask<V>(m, n, mask, vfn);
     auto A = mk::to_crs<V>(D);
+    if (reversed_rows) {    // the counting transpose does not need sorted input rows; its output is sorted all the same
+        bool changed = false;
+        for (int r = 0; r < m; ++r) { int w = A->ptr[r+1] - A->ptr[r]; std::vector<int> o(w); for (int q = 0; q < w; ++q) o[q] = w - 1 - q; if (w > 1) changed = true; mk::permute_row(*A, r, o); }
+        if (!changed) return;
+        vf::count("transpose_reversed_rows_cases");
+    }
     auto T = backend::transpose(*A);
     mk::Dense<V> ref(n, m);
     for (int i = 0; i < m; ++i) for (int j = 0; j < n; ++j) if (D.st(i, j)) { ref.st(j, i) = 1; ref(j, i) = math::adjoint(D(i, j)); }
@@ -185,6 +191,7 @@ static void run_transpose() {
         for (uint64_t mask = 0; mask < (1ull << (m * n)); ++mask) {
             if (!vf::take([&]{ return pkey("tr", m, n, 0, mask, 0); })) continue;
             transpose_case<double>("real", m, n, mask, [](int i, int j){ return ival(i, j, 0); });
+            transpose_case<double>("real.reversed_rows", m, n, mask, [](int i, int j){ return ival(i, j, 0); }, true);
             if (m * n <= 12) {
                 transpose_case<Cx>("complex", m, n, mask, [](int i, int j){ return cval(i, j, 0); });
                 transpose_case<B2>("block2", m, n, mask, [](int i, int j){ return bval(i, j, 0); });
@@ -297,9 +304,32 @@ static void run_scale_diag() {
                 if ((*di)[i] != 1.0 / D(i,i)) vf::fail("diagonal.inverse", key, vf::KS() << "row " << i);
             }
             vf::count("diagonal_cases");
+            // rows stored in another order (permitted: diagonal() looks for the diagonal entry anywhere in the row).
+            // Variant 1 reverses every row, variant 2 rotates it by one; the values depend on the pattern and the variant,
+            // so an entry that is left unwritten cannot pass by inheriting the bytes of the previous case's result.
+            for (int variant = 1; variant <= 2; ++variant) {
+                auto val2 = [&](int i, int j){ return dy[(2*i + 3*j + mask + variant) % 6]; };
+                auto D2 = mk::from_mask<double>(4, 4, mask, val2);
+                auto A2 = mk::to_crs<double>(D2);
+                bool changed = false;
+                for (int r = 0; r < 4; ++r) {
+                    int w = A2->ptr[r+1] - A2->ptr[r]; std::vector<int> o(w);
+                    for (int q = 0; q < w; ++q) o[q] = variant == 1 ? w - 1 - q : (q + 1) % w;
+                    if (w > 1) changed = true;
+                    mk::permute_row(*A2, r, o);
+                }
+                if (!changed) continue;
+                auto d2 = backend::diagonal(*A2, false);
+                auto di2 = backend::diagonal(*A2, true);
+                for (int i = 0; i < 4; ++i) {
+                    if ((*d2)[i] != D2(i,i)) vf::fail("diagonal.unsorted_rows.value", key, vf::KS() << "row " << i << " order=" << (variant == 1 ? "reversed" : "rotated") << " got=" << (*d2)[i] << " want=" << D2(i,i));
+                    if ((*di2)[i] != 1.0 / D2(i,i)) vf::fail("diagonal.unsorted_rows.inverse", key, vf::KS() << "row " << i << " order=" << (variant == 1 ? "reversed" : "rotated") << " got=" << (*di2)[i] << " want=" << 1.0 / D2(i,i));
+                }
+                vf::count("diagonal_unsorted_cases");
+            }
         }
     }
-    vf::space("scale/diagonal: all 4x4 patterns with dyadic values");
+    vf::space("scale/diagonal: all 4x4 patterns with dyadic values; diagonal also with every row reversed / rotated by one");
     // complex / block diagonal inversion: 2x2 patterns with full diagonal
     for (uint64_t mask = 0; mask < 16; ++mask) {
         if (!(mk::bit(mask, 0) && mk::bit(mask, 3))) continue;
@@ -445,6 +475,15 @@ static void run_spectral() {
             for (int nt : {1, 2, 3, 5}) {
                 double r = with_threads(nt, [&]{ return scaled ? backend::spectral_radius<true>(*A, 0) : backend::spectral_radius<false>(*A, 0); });
                 if (r != g) vf::fail("gershgorin.value", key, vf::KS() << "scaled=" << scaled << " nt=" << nt << " got " << r << " want " << g);
+            }
+            {   // the same rows stored in reverse order: the bound is a row sum (exact for these values), so the order cannot matter
+                auto Ar = mk::to_crs<double>(D);
+                for (int rr = 0; rr < 3; ++rr) { int w = Ar->ptr[rr+1] - Ar->ptr[rr]; std::vector<int> o(w); for (int q = 0; q < w; ++q) o[q] = w - 1 - q; mk::permute_row(*Ar, rr, o); }
+                for (int nt : {1, 3}) {
+                    double r = with_threads(nt, [&]{ return scaled ? backend::spectral_radius<true>(*Ar, 0) : backend::spectral_radius<false>(*Ar, 0); });
+                    if (r != g) vf::fail("gershgorin.value.reversed_rows", key, vf::KS() << "scaled=" << scaled << " nt=" << nt << " got " << r << " want " << g);
+                }
+                vf::count("gershgorin_reversed_rows_cases");
             }
             Eigen::EigenSolver<Eigen::Matrix3d> es(M, false);
             double rho = 0; for (int i = 0; i < 3; ++i) rho = std::max(rho, std::abs(es.eigenvalues()[i]));
